@@ -23,7 +23,8 @@ LEVEL = "other"
 TECHNIQUE = ('resolved dispatcher call graph with token-name propagation (SCC / reachability), constant-key '
              'evaluation, CFG dominance of scope tests over pop loops, tokenizer epsilon-graph acyclicity; '
              'interprocedural must-progress summaries (least fixpoint) for reprocessing hand-backs; insertion-mode '
-             'transition table')
+             'transition table; abstract interpretation of the pre-scan cursor (position-below-length typestate, '
+             'per-function summaries, try/except brackets) for escaping StopIteration / ValueError')
 CLAIM = ('Over all code (not sampled inputs): every constant key used to index a constant table exists (no '
          'KeyError on a rare path); the only recursion in tree construction is the bounded '
          'endTagP/startTagCloseP pair (no input-depth recursion -> no RecursionError); every loop that pops '
@@ -39,9 +40,12 @@ CLAIM = ('Over all code (not sampled inputs): every constant key used to index a
          'possibly-None result is not passed where it is dereferenced. int() of input text is guarded against '
          "CPython's digit limit; a name test on the current node that leads to an innerHTML assertion also "
          'tests the namespace in every phase in which the current node can be foreign; HTML-ness is tested '
-         'against tree.defaultNamespace; the DOM back-end checks the real parent before removing a child.')
+         'against tree.defaultNamespace; the DOM back-end checks the real parent before removing a child. Neither '
+         'StopIteration (the pre-scan cursor running off its buffer) nor ValueError (bytes.index) can leave '
+         'EncodingParser.getEncoding, for any cursor position reachable through the calls as written.')
 NOT_DECIDED = ("unreachability of the `assert ...innerHTML` sites in document mode, termination of the tree-construction "
-               "reprocessing loop, exceptions raised inside xml.dom.minidom / ElementTree, wall-clock.")
+               "reprocessing loop, exceptions raised inside xml.dom.minidom / ElementTree, wall-clock; the TypeError the "
+               "pre-scan cursor raises for a negative position (no lower-bound fact is tracked).")
 MODULES = ["html5parser.py", "treebuilders/base.py", "treebuilders/etree.py", "treebuilders/dom.py", "_tokenizer.py",
            "_inputstream.py", "constants.py", "_utils.py"]
 
@@ -1130,6 +1134,65 @@ def bounded_int(ctx):
         raise AnalysisError("C03.13: no int() conversion of input text found on the parse path")
 
 
+# ---------------------------------------------------------------------------- C03.19
+def prescan_exception_flow(ctx, rid="C03.19", entries=(("EncodingParser", "getEncoding"),), floor_sites=4):
+    """The encoding pre-scan reports "ran off the end of the buffer" by raising StopIteration from the accessors of its cursor
+    (`EncodingBytes`) and relies on try/except brackets in `EncodingParser.getEncoding`; `jumpTo` turns bytes.index's ValueError
+    into it.  `detectEncodingMeta` calls getEncoding with no bracket of its own, so either exception escaping getEncoding comes
+    out of parse().  Whether an accessor raises depends on the cursor's position, i.e. on what the previous calls did; the
+    decision is made by abstract interpretation of the classes (sa/excstate.py): position facts `< len(cursor)`, per-function
+    summaries, brackets as written."""
+    from ..excstate import Interp, TRACKED_EXC
+    r = ctx.r
+    mod = ctx.repo.module("_inputstream.py")
+    cursor = mod.classes.get("EncodingBytes")
+    if cursor is None:
+        raise AnalysisError("%s: class EncodingBytes vanished" % rid)
+    for cname, fname in entries:
+        cls = mod.classes.get(cname)
+        f = cls.find_method(fname) if cls else None
+        if f is None:
+            raise AnalysisError("%s: %s.%s vanished" % (rid, cname, fname))
+        init = cls.find_method("__init__")
+        holders = []
+        if init is not None:
+            for a in walk_no_nested(init.node):
+                if isinstance(a, ast.Assign) and len(a.targets) == 1 and isinstance(a.targets[0], ast.Attribute) and \
+                        norm(a.targets[0].value) == "self":
+                    v = a.value
+                    if isinstance(v, ast.Call) and norm(v.func) == "EncodingBytes":
+                        holders.append(a.targets[0].attr)
+                    elif isinstance(v, ast.Name) and v.id in init.params()[1:]:
+                        # a parameter for which a constructor call in this module passes a new cursor
+                        k = init.params()[1:].index(v.id)
+                        sites = [c for c in ast.walk(mod.tree) if isinstance(c, ast.Call) and norm(c.func) == cname]
+                        if sites and all(len(c.args) > k and isinstance(c.args[k], ast.Call) and norm(c.args[k].func) == "EncodingBytes" for c in sites):
+                            holders.append(a.targets[0].attr)
+        key = "no-escape::%s.%s" % (cname, fname)
+        if len(holders) != 1:
+            r.idiom(rid, False, key, cls.where, "%s.__init__ does not keep exactly one cursor attribute (found %s)" % (cname, holders))
+            continue
+        try:
+            it = Interp(mod, cursor, holders[0])
+            outs = it.summary(f, cls, it.fresh_cursor_state(), {})
+        except AnalysisError as e:
+            r.idiom(rid, False, key, f.where, "exception flow of the pre-scan is not understood: %s" % e)
+            continue
+        if it.stats["raise_sites"] < floor_sites or it.stats["handlers"] < 1:
+            r.idiom(rid, False, key, f.where, "the pre-scan's raise / except structure was not found (%s)" % it.stats)
+            continue
+        esc = [o for o in outs if o.kind == "raise" and o.val in TRACKED_EXC]
+        for o in esc:
+            r.bad(rid, "%s::%s" % (key, o.val), "_inputstream.py:%s" % (o.trace[-1].rsplit(":", 1)[-1] if o.trace else f.node.lineno),
+                  "%s can leave %s.%s: %s -- outside every `except %s` bracket, so it comes out of %s"
+                  % (o.val, cname, fname, " -> ".join(o.trace), o.val,
+                     "parse() for bytes input that contains `<meta`" if fname == "getEncoding" else "the attribute loop and ends the whole pre-scan"),
+                  {"trace": list(o.trace)})
+        if not esc:
+            r.ok(rid, key, f.where, detail=dict(it.stats, outcomes=sorted({"%s %s" % (o.kind, o.val if o.kind == "raise" else "") for o in outs})))
+
+
+
 # ---------------------------------------------------------------------------- C03.6
 def dispatch_total(ctx):
     r = ctx.r
@@ -1175,6 +1238,7 @@ def run(ctx):
     r.rule("C03.14", "HTML-ness of a stack node is tested against tree.defaultNamespace, never the constant XHTML namespace", floor=5)
     r.rule("C03.15", "the DOM back-end removes a child only after checking the real parent", floor=1)
     r.rule("C03.13", "int() of input text uses a power-of-two radix, a ValueError handler or a length guard", floor=1)
+    r.rule("C03.19", "neither StopIteration nor ValueError can leave the encoding pre-scan (cursor typestate + exception flow)", floor=1)
     r.rule("C03.6", "every phase has a concrete handler for every token kind and tag name", floor=100)
     constkey(ctx)
     recursion(ctx)
@@ -1194,6 +1258,7 @@ def run(ctx):
     html_namespace_tests(ctx)
     from .c06 import bom_read_and_seek
     bom_read_and_seek(ctx, "C03.17", "C03.18")
+    prescan_exception_flow(ctx)
     dispatch_total(ctx)
     from . import c03_tok
     c03_tok.run(ctx)
@@ -1274,6 +1339,16 @@ def mutants():
           "            if nodeName in (\"select\", \"colgroup\", \"head\", \"html\"):\n                assert self.innerHTML\n\n            if not last and node.namespace != self.tree.defaultNamespace:\n                continue\n", "C03.10"),
         T("none-insertbefore", "html5parser.py", "                if insertBefore is None:\n                    parent.appendChild(lastNode)\n                else:\n                    parent.insertBefore(lastNode, insertBefore)",
           "                parent.insertBefore(lastNode, insertBefore)", "C03.11"),
+        T("prescan-setter-validates-new-position", "_inputstream.py", "    def setPosition(self, position):\n        if self._position >= len(self):",
+          "    def setPosition(self, position):\n        if position >= len(self):", "C03.19"),
+        T("prescan-jumpto-outside-bracket", "_inputstream.py", "            try:\n                self.data.jumpTo(b\"<\")\n            except StopIteration:\n                break\n",
+          "            self.data.jumpTo(b\"<\")\n", "C03.19"),
+        T("prescan-jumpto-valueerror-unconverted", "_inputstream.py", "        try:\n            self._position = self.index(bytes, self.position) + len(bytes) - 1\n        except ValueError:\n            raise StopIteration\n",
+          "        self._position = self.index(bytes, self.position) + len(bytes) - 1\n", "C03.19"),
+        T("prescan-handler-bracket-catches-valueerror", "_inputstream.py", "                    except StopIteration:\n                        keepParsing = False\n                        break",
+          "                    except ValueError:\n                        keepParsing = False\n                        break", "C03.19"),
+        T("prescan-matchbytes-rereads-position", "_inputstream.py", "        if rv:\n            self.position += len(bytes)\n        return rv",
+          "        if rv:\n            self.position += len(bytes)\n        return rv and self.position is not None", "C03.19"),
         T("variant-typo", "html5parser.py", 'return not self.tree.elementInScope("tr", variant="table")', 'return not self.tree.elementInScope("tr", variant="tables")', "C03.1"),
     ]
 
@@ -1285,6 +1360,14 @@ def preserving():
           '            while self.tree.openElements.pop().name != "select":\n                pass\n', None),
         T("frameset-del-slice", "html5parser.py", "            while self.tree.openElements[-1].name != \"html\":\n                self.tree.openElements.pop()\n            self.tree.insertElement(token)\n            self.parser.phase = self.parser.phases[\"inFrameset\"]",
           "            del self.tree.openElements[1:]\n            self.tree.insertElement(token)\n            self.parser.phase = self.parser.phases[\"inFrameset\"]", None),
+        T("prescan-setter-not-lt", "_inputstream.py", "    def setPosition(self, position):\n        if self._position >= len(self):",
+          "    def setPosition(self, position):\n        if not self._position < len(self):", None),
+        T("prescan-getter-alias", "_inputstream.py", "    def getPosition(self):\n        if self._position >= len(self):\n            raise StopIteration\n        if self._position >= 0:\n            return self._position",
+          "    def getPosition(self):\n        here = self._position\n        if len(self) <= here:\n            raise StopIteration\n        if here >= 0:\n            return here", None),
+        T("prescan-matchbytes-early-return", "_inputstream.py", "        if rv:\n            self.position += len(bytes)\n        return rv",
+          "        if not rv:\n            return False\n        self.position += len(bytes)\n        return True", None),
+        T("prescan-bracket-tuple", "_inputstream.py", "            try:\n                self.data.jumpTo(b\"<\")\n            except StopIteration:\n                break\n",
+          "            try:\n                self.data.jumpTo(b\"<\")\n            except (StopIteration, ValueError):\n                break\n", None),
         T("reorder-dispatch", "html5parser.py", '        ("html", startTagHtml),\n        ("body", startTagBody),\n        ("frameset", startTagFrameset),',
           '        ("body", startTagBody),\n        ("html", startTagHtml),\n        ("frameset", startTagFrameset),', None),
     ]
